@@ -4,6 +4,7 @@ package main
 import (
 	"encoding/json"
 	"fmt"
+	"hash/fnv"
 	"reflect"
 
 	"golang.org/x/crypto/ssh"
@@ -105,6 +106,20 @@ func mkCert(a attrs, transID string, prins []string, reqUser string) *ssh.Certif
 		IsFirefighter: a.FF, IsHWKey: a.HW, IsHeadless: a.Headless, IsNonce: a.Nonce, Usage: keyid.Usage(a.Usage), TouchPolicy: keyid.TouchPolicy(a.Touch), Version: 1}
 	b, _ := json.Marshal(&k)
 	c := &ssh.Certificate{KeyId: string(b), ValidPrincipals: prins}
+	// everything else about the certificate is irrelevant to its type, label and principals: varied
+	// (determined by the KeyID text, so that a case replays identically)
+	h := fnv.New32a()
+	h.Write(b)
+	v := h.Sum32()
+	c.CertType = []uint32{0, ssh.UserCert, ssh.HostCert, ssh.UserCert, 7}[v%5]
+	c.Serial = uint64(v) * 2654435761
+	c.ValidAfter, c.ValidBefore = [][2]uint64{{0, 0}, {0, ssh.CertTimeInfinity}, {1, 2}, {1 << 62, 1<<62 + 1}}[(v>>3)%4][0], [][2]uint64{{0, 0}, {0, ssh.CertTimeInfinity}, {1, 2}, {1 << 62, 1<<62 + 1}}[(v>>3)%4][1]
+	if (v>>5)%2 == 0 {
+		c.Key = gen.Pool()[int(v>>6)%len(gen.Pool())].Pub
+	}
+	if (v>>9)%2 == 0 {
+		c.Extensions = map[string]string{"permit-pty": "", "touchless-sudo-hosts": "not-a-critical-option"}
+	}
 	switch a.Opt {
 	case 1:
 		c.CriticalOptions = map[string]string{}
